@@ -57,9 +57,16 @@ fn cstring(bytes: &[u8]) -> CString {
 unsafe fn call(h: &Handle, q: &CString, limit: usize, cursor: Option<&CString>, aggs: Option<&[u8]>, cap: usize) -> (usize, Vec<u8>) {
   let mut mem = vec![FILL; CANARY + cap + CANARY];
   let buf = mem.as_mut_ptr().add(CANARY) as *mut c_char;
-  let (ap, al) = match aggs {
-    Some(a) => (a.as_ptr() as *const c_char, a.len()),
-    None => (std::ptr::null(), 0),
+  // the aggregation JSON is NOT NUL-terminated at aggs_len: bytes that are not JSON follow it inside the same
+  // allocation (the contract is "aggs_len bytes of JSON"; a callee reading on to a NUL gets text that does not parse)
+  let padded: Option<Vec<u8>> = aggs.map(|a| {
+    let mut v = a.to_vec();
+    v.extend_from_slice(b"]]}\"@@not-json@@\0");
+    v
+  });
+  let (ap, al) = match (&padded, aggs) {
+    (Some(p), Some(a)) => (p.as_ptr() as *const c_char, a.len()),
+    _ => (std::ptr::null(), 0),
   };
   let ret = searchlite_search(h.0, q.as_ptr(), limit, cursor.map(|c| c.as_ptr()).unwrap_or(std::ptr::null()), ap, al, buf, cap);
   (ret, mem)
@@ -69,7 +76,7 @@ impl Property for C26 {
   type Case = Case;
   const ID: &'static str = "C26";
   fn rule() -> String {
-    "cases = an index opened through the C API (documents added through searchlite_add_json + searchlite_commit), a query (plain text, JSON node, raw bytes incl. invalid UTF-8), limit 0..6, optional cursor (garbage or the real next_cursor), optional aggregation JSON (valid, invalid, empty) and buffer capacities: quick 40 sampled capacities in 0..=full length+16 plus 0, 1, 2, full-1, full, full+1; thorough EVERY capacity in that range. The output buffer sits between two 64-byte canary regions inside one allocation pre-filled with 0xAA. Oracle per call: canaries and every byte at index >= buf_cap unchanged; ret <= buf_cap-1; a NUL at index ret and none before it; bytes [0,ret) are a prefix of the full response obtained with a large buffer; buf_cap 0 leaves the buffer untouched and returns 0; null handle / query / output buffer return 0 and write nothing; a failing search (invalid aggregation JSON, invalid cursor) returns 0 and writes nothing. Process aborts are caught by the supervisor. Non-trivial = a truncating call (0 < buf_cap <= full length); distinct = hash of (case, cap)".into()
+    "cases = an index opened through the C API (documents added through searchlite_add_json + searchlite_commit), a query (plain text, JSON node, raw bytes incl. invalid UTF-8), limit 0..6, optional cursor (garbage or the real next_cursor), optional aggregation JSON (valid, invalid, empty) and buffer capacities: quick 40 sampled capacities in 0..=full length+16 plus 0, 1, 2, full-1, full, full+1; thorough EVERY capacity in that range. The output buffer sits between two 64-byte canary regions inside one allocation pre-filled with 0xAA. Oracle per call: canaries and every byte at index >= buf_cap unchanged; ret <= buf_cap-1; a NUL at index ret and none before it; bytes [0,ret) are a prefix of the full response obtained with a large buffer; buf_cap 0 leaves the buffer untouched and returns 0; null handle / query / output buffer return 0 and write nothing; a failing search (invalid aggregation JSON, invalid cursor) returns 0 and writes nothing; the aggregation JSON is passed WITHOUT a NUL at aggs_len (non-JSON bytes follow it in the same allocation) and a well-formed map must be honoured (every requested name answered) whenever the same search without it succeeds - reading past aggs_len shows as a parse failure. Process aborts are caught by the supervisor. Non-trivial = a truncating call (0 < buf_cap <= full length); distinct = hash of (case, cap)".into()
   }
   fn assumptions() -> Vec<String> {
     vec!["the full response is deterministic for an unchanged index (checked: two large-buffer calls must agree, otherwise only the bounds are judged)".into()]
@@ -170,6 +177,29 @@ impl Property for C26 {
       if mem[CANARY + full_len] != 0 {
         out.fail("missing-nul", format!("large-buffer call: byte at index ret={full_len} is {:#04x}, not NUL", mem[CANARY + full_len]));
         return out;
+      }
+    }
+    // aggs_json is "aggs_len bytes of JSON": a well-formed aggregation map of exactly that length must be read as
+    // such (nothing after aggs_len belongs to it), i.e. the search that works without it works with it and answers it
+    if let Some(a) = case.aggs.as_deref() {
+      if let Ok(map) = serde_json::from_str::<std::collections::BTreeMap<String, searchlite_core::api::types::Aggregation>>(a) {
+        if !map.is_empty() {
+          out.evals += 1;
+          note_inflight("call without aggregations");
+          let (plain_len, _) = unsafe { call(&h, &q, case.limit, cursor.as_ref(), None, BIG) };
+          if plain_len > 0 {
+            out.class("valid-aggs-judged");
+            // (an index without matching documents may answer with no aggregations member at all)
+            let answered = serde_json::from_slice::<Value>(&full)
+              .ok()
+              .map(|v| v.get("total_hits_estimate").and_then(|t| t.as_u64()).unwrap_or(0) == 0 || map.keys().all(|k| v.get("aggregations").and_then(|x| x.get(k)).is_some()))
+              .unwrap_or(false);
+            if failing || !answered {
+              out.fail("valid-aggregation-json-not-honoured", format!("the search succeeds without aggregations ({plain_len} bytes) but with the {}-byte aggregation JSON {a:?} (followed in memory by bytes that are not part of it) it returned {full_len} bytes: {:?}", a.len(), String::from_utf8_lossy(&full[..full.len().min(200)])));
+              return out;
+            }
+          }
+        }
       }
     }
     // capacities
